@@ -218,8 +218,9 @@ func (w *World) Prepare(scs []*Scenario) error {
 		w.E.SignTx(t, ftx, int64(nfund)*2000_0000, w.Val)
 		txs = append(txs, ftx)
 	}
-	w.E.AddNewBlock(t, txs...)
-	w.Sync()
+	if err := w.addBlock(txs); err != nil {
+		return fmt.Errorf("setup block refused: %w", err)
+	}
 	for _, tx := range txs {
 		aer := w.E.GetTxExecResult(t, tx.Hash())
 		if aer.VMState != vmstate.Halt {
@@ -353,18 +354,25 @@ func (w *World) Observe(s *Scenario) Outcome {
 	return o
 }
 
-// RunBlock puts the transactions of the scenarios (in the given order) into one block; before is called after
-// the transactions are made and before the block is added.
-func (w *World) RunBlock(scs []*Scenario, before func()) {
+// RunBlock puts the transactions of the scenarios (in the given order) into one block. A block of transactions
+// that were valid when they were made can only be refused if earlier executions corrupted the ledger: the error
+// is returned (the driver stops and reports what it has) instead of failing the test.
+func (w *World) RunBlock(scs []*Scenario) error {
 	var txs []*transaction.Transaction
 	for _, s := range scs {
 		txs = append(txs, w.MakeTx(s))
 	}
-	if before != nil {
-		before()
+	return w.addBlock(txs)
+}
+
+func (w *World) addBlock(txs []*transaction.Transaction) error {
+	b := w.E.NewUnsignedBlock(w.t, txs...)
+	w.E.SignBlock(b)
+	if err := w.BC.AddBlock(b); err != nil {
+		return err
 	}
-	w.E.AddNewBlock(w.t, txs...)
 	w.Sync()
+	return nil
 }
 
 func sortedKeys(m map[string]int) []string {
